@@ -8,7 +8,7 @@ from ..treecheck import TreeCheck
 class C12(TreeCheck):
     prop = "C12"
     rule_text = (
-        "programs from g_tree: depth 0-3 of nested executors (loky / loky_init_main), every process probing the tracker it reports to; a file "
+        "programs from g_tree: depth 0-3 of nested executors (loky / loky_init_main), every process probing the tracker it reports to; variant bad_request (unknown resource type, requests on untracked names, an unknown command: the shared tracker must go on); mode SL (SIGINT reaching the launching process while it spawns the tracker: the next tracked operation must heal); a file "
         "registered by the root; variants: SIGINT/SIGTERM sent to the tracker from outside, SIGKILL of the tracker (repeated) followed by tracked "
         "operations, root killed first (workers finish their tasks, then idle out), leaves first, a worker killed. Profile run of the tracker too: "
         "SIGINT/SIGTERM self-delivered at a statement boundary of the tracker's main() incl. its first lines (S); delays (D) in ensure_running; "
@@ -23,7 +23,7 @@ class C12(TreeCheck):
         out = []
         nroot = 0
         for i in range(n):
-            prog, meta = programs.g_tree(rng)
+            prog, meta = programs.g_tree(rng, force_variant="bad_request" if i % 9 == 4 else None)
             to = {"hard_s": 200}
             if meta["variant"] == "root_first":
                 nroot += 1
@@ -46,10 +46,23 @@ class C12(TreeCheck):
             h = rng.choice(explore.hits_for(pt, rng, which=("first", "last", "random")) or [1])
             out.append(({"rules": [explore.rule(pt, ["signal", sig], hit=h, any_proc=True)]}, {"mode": "S", "fn": "tracker.main+%d" % pt["rel"], "sig": sig}))
         out += explore.derive_D(F, base, rng, 3 if quick else 10, quals=["ResourceTracker.ensure_running", "ResourceTracker.maybe_unlink", "spawnv_passfds", "get_preparation_data", "Popen._launch"], delay=0.1)
+        # SIGINT reaching the *launching* process while ensure_running has SIGINT/SIGTERM blocked around the spawn (first launch, or
+        # relaunch after a kill): it surfaces as KeyboardInterrupt at the unblock; that call may fail, the next tracked operation must
+        # heal. Only single-threaded programs (the mask is per thread), only judged when the interrupted call is an explicit tracker op.
+        if len(base["program"].get("threads", [])) == 1:
+            epts = [p for p in explore.points_of(F, role="driver", thr="user", quals=["spawnv_passfds"])]
+            for pt in explore.stratified_sample(epts, 2 if quick else 6, rng, key=lambda p: (p["qual"], p["rel"])):
+                for h in ([1] if quick else [1, 2]):
+                    out.append(({"rules": [explore.rule(pt, ["signal", "SIGINT"], hit=h)]}, {"mode": "SL", "fn": "%s+%d" % (pt["qual"], pt["rel"]), "sig": "SIGINT"}))
         out += explore.derive_Z(rng, 1)
         return out
 
     def oracle(self, case, F):
+        if case["meta"].get("mode") == "SL":
+            sigs = [f for f in F.faults if f.get("kind") == "signal" and f.get("role") == "driver"]
+            hit = [o for o in F.ops.values() if o["call"] and sigs and o["call"]["t"] <= sigs[0]["t"] and (o["end"] is None or o["end"]["t"] >= sigs[0]["t"])]
+            if not sigs or not hit or any(o["call"]["op"] != "tracker" for o in hit):
+                return []  # premise not met: the interrupt did not land inside an explicit tracker operation
         v = props.c12(case, F)
         if not clauses.driver_ended_by_plan(case, F):
             v = clauses.c01_progress(case, F) + v
